@@ -318,14 +318,24 @@ def keepOPTOnly : List RR → List RR
 def udpOverflow (L Lu : Msg → Nat) (m : Msg) (limit : Nat) : Bool :=
   if Lu m ≤ limit then false else decide (L m > limit)
 
-/-- `(*ResponseWriter).WriteMsg`: what reaches the transport. -/
-def writeMsg (L Lu : Msg → Nat) (cfg : Cfg) (w : Writer) (m : Msg) : Msg :=
-  let m := if !w.do_ then clearDNSSEC m else m
-  let m := if !w.noedns then shapeOpt cfg w m else clearOPT m
-  let m := if w.noad then { m with fl := { m.fl with ad := false } } else m
+/-- WriteMsg, step 1: `if !w.do { m = ClearDNSSEC(m) }`. -/
+def stageDnssec (w : Writer) (m : Msg) : Msg := if !w.do_ then clearDNSSEC m else m
+
+/-- WriteMsg, step 2: the EDNS arm, or `ClearOPT` for a client without EDNS. -/
+def stageOpt (cfg : Cfg) (w : Writer) (m : Msg) : Msg := if !w.noedns then shapeOpt cfg w m else clearOPT m
+
+/-- WriteMsg, step 3: `if w.noad { m.AuthenticatedData = false }`. -/
+def stageAD (w : Writer) (m : Msg) : Msg := if w.noad then { m with fl := { m.fl with ad := false } } else m
+
+/-- WriteMsg, step 4: UDP overflow ⇒ TC=1 with only question and OPT. -/
+def stageTruncate (L Lu : Msg → Nat) (w : Writer) (m : Msg) : Msg :=
   if w.proto == .udp && udpOverflow L Lu m w.size then
     { m with fl := { m.fl with tc := true, ad := false }, answer := [], ns := [], extra := keepOPTOnly m.extra }
   else m
+
+/-- `(*ResponseWriter).WriteMsg`: what reaches the transport. -/
+def writeMsg (L Lu : Msg → Nat) (cfg : Cfg) (w : Writer) (m : Msg) : Msg :=
+  stageTruncate L Lu w (stageAD w (stageOpt cfg w (stageDnssec w m)))
 
 /-! ### Chain.CancelWithRcode, EDNS.ServeDNS -/
 
